@@ -502,6 +502,11 @@ pub fn map_children(g: &G, f: &mut dyn FnMut(&G) -> G) -> G {
             let a = bx(a);
             IntoIter(a, sink(s, &mut bx))
         }
+        CtxIter(k, a, c, s) => {
+            let a = bx(a);
+            let c = bx(c);
+            CtxIter(*k, a, c, sink(s, &mut bx))
+        }
         IterChain(ps, s) => {
             let ps: Vec<Part> = ps.iter().map(|p| p.map(&mut |g| *bx(g))).collect();
             IterChain(ps, sink(s, &mut bx))
@@ -947,6 +952,41 @@ pub fn ctx_bare_templates() -> Vec<G> {
                 out.push(ThenWithCtx(b(Any), b(core.clone())));
                 out.push(IgnoreWithCtx(b(Any), b(core)));
             }
+        }
+    }
+    out
+}
+
+/// context providers used as iterable parsers (`a.ignore_with_ctx(item.repeated()..)` / `a.then_with_ctx(..)` driven by
+/// collect / count / folds / collect_exactly, or as a unit parser), each followed by a rest capture: the provider runs
+/// once, when the iteration starts (after the head of a left fold), and every item sees its output as context
+pub fn ctx_iter_templates() -> Vec<G> {
+    let mut out = vec![];
+    let sinks = vec![
+        Sink::Vec,
+        Sink::Count,
+        Sink::Bare,
+        Sink::Exactly(2),
+        Sink::Foldl(b(Any)),
+        Sink::Foldl(b(OneOf("ab"))),
+        Sink::Foldr(b(Any)),
+        Sink::Foldr(b(OrNot(b(Just('c'))))),
+        Sink::FoldlWith(b(Any)),
+    ];
+    for prov in [Any, OneOf("ab"), Just('b'), Then(b(Any), b(Any))] {
+        for it in [JustCtx, Any, Just('a'), Or(b(JustCtx), b(Just('c'))), Validate(b(JustCtx), 1)] {
+            for kind in 0..6u8 {
+                for s in &sinks {
+                    out.push(with_rest(CtxIter(kind, b(prov.clone()), b(it.clone()), s.clone())));
+                }
+            }
+        }
+    }
+    // nested in an outer context: the inner provider's output shadows it for the items only
+    for kind in [1u8, 4] {
+        for s in [Sink::Vec, Sink::Foldl(b(JustCtx)), Sink::Foldr(b(JustCtx))] {
+            out.push(WithCtx('a', b(with_rest(CtxIter(kind, b(Any), b(JustCtx), s.clone())))));
+            out.push(WithCtx('b', b(with_rest(CtxIter(kind, b(JustCtx), b(JustCtx), s)))));
         }
     }
     out
